@@ -152,18 +152,51 @@ def _init_child():
     warnings.simplefilter("ignore")
 
 
-def minimise(check, v, budget_s=120.0):
-    """Shrink (config, decisions) of violation v while the same key persists."""
+def _workload_candidates(wl):
+    """Simpler workloads, most aggressive first (each is tried once, kept if the violation persists)."""
+    import copy
+
+    d = wl.get("data", {})
+    if d.get("mask"):
+        w = copy.deepcopy(wl)
+        w["data"]["mask"] = []
+        yield "no mask", w
+    if d.get("noise_pct"):
+        w = copy.deepcopy(wl)
+        w["data"]["noise_pct"] = 0.0
+        yield "no noise", w
+    n = d.get("n", 0)
+    for m in (8, 13):
+        if n > m + 2:
+            w = copy.deepcopy(wl)
+            w["data"]["n"] = m
+            w["data"]["mask"] = [i for i in d.get("mask", []) if i < m]
+            yield f"{m} points", w
+            break
+    kw = wl.get("kwargs", {})
+    for name in ("method", "weight"):
+        val = kw.get(name)
+        if isinstance(val, list) and len(val) > 2:
+            w = copy.deepcopy(wl)
+            w["kwargs"][name] = val[:2]
+            if "combos" in w:
+                w.pop("combos")
+            yield f"{name} list halved", w
+
+
+def minimise(check, v, budget_s=150.0):
+    """Shrink (config, decisions, then workload) of violation v while the same key persists."""
     wl = v["workload"]
     ctx = Ctx(wl)
     key = report.key_str(v["key"])
     t0 = time.time()
+    state = {"wl": wl, "ctx": ctx}
 
-    def fails(cfg, decisions):
+    def fails(cfg, decisions, wl_=None, ctx_=None):
         if time.time() - t0 > budget_s:
             return False
         try:
-            out, viols = check.evaluate(wl, cfg, Decisions(recorded=decisions), ctx)
+            out, viols = check.evaluate(wl_ or state["wl"], cfg, Decisions(recorded=decisions), ctx_ or state["ctx"])
         except Exception:
             return False
         return any(report.key_str(x["key"]) == key for x in viols)
@@ -203,6 +236,16 @@ def minimise(check, v, budget_s=120.0):
                 break
     # 3. ddmin over non-neutral decisions
     dec = report.ddmin(dec, lambda sub: fails(cfg, sub), budget=60)
+    # 4. simpler workload (each candidate needs its own task cache, so only a few are tried)
+    if "combos" not in wl and "tuple_index" not in wl:
+        for what, cand in _workload_candidates(wl):
+            if time.time() - t0 > budget_s * 0.8:
+                break
+            c2 = Ctx(cand)
+            if fails(cfg, dec, cand, c2):
+                state["wl"], state["ctx"] = cand, c2
+                v["workload"] = cand
+                v.setdefault("workload_shrunk", []).append(what)
     return cfg, dec, True
 
 
@@ -240,6 +283,12 @@ def run_check(check, tier, replay=None):
             print(f"HARNESS-ERROR property={prop} determinism self-test: {d}", file=sys.stderr)
             conclude(check, tier, seed, results, timer, extra_coverage=extra)
             return 2
+    if hasattr(check, "fidelity") and os.environ.get("VERIF_SKIP_FIDELITY") != "1" and float(os.environ.get("VERIF_SCALE", "1") or 1) == 1.0:
+        extra = dict(extra or {})
+        extra["fidelity_real_pool"] = check.fidelity(tier, seed)
+        f = extra["fidelity_real_pool"]
+        if f.get("workloads") and f.get("equal_to_serial_reference") != f.get("workloads"):
+            print(f"WARNING property={prop} real-pool fidelity sample differs from the serial reference: {f}", file=sys.stderr)
     return conclude(check, tier, seed, results, timer, extra_coverage=extra)
 
 
@@ -308,7 +357,7 @@ def conclude(check, tier, seed, results, timer, extra_coverage=None):
         payload = {
             "property": prop, "clause": v["clause"], "key": v["key"], "engine": "simpool",
             "verif_seed": seed, "run_seed": v.get("run_seed"), "minimised": reproduced,
-            "workload": v["workload"], "config": cfg, "decisions": dec,
+            "workload": v["workload"], "workload_shrunk": v.get("workload_shrunk", []), "config": cfg, "decisions": dec,
             "original_decisions": len(v["decisions"]),
             "detail": v["detail"], "expected": v.get("expected"), "observed": v.get("observed"),
             "occurrences_in_batch": len(vs),
